@@ -197,7 +197,8 @@ template<> struct GridReaderVersion5<GridGlobal>{
         int oned_max_level;
         if (IO::readFlag<iomode>(is)){
             grid->updated_tensors = MultiIndexSet(is, iomode());
-            oned_max_level = grid->updated_tensors.getMaxIndex();
+            // the loaded tensors can reach beyond the proposed ones, e.g., a dynamic construction that went on after an update
+            oned_max_level = std::max(grid->updated_tensors.getMaxIndex(), *std::max_element(grid->max_levels.begin(), grid->max_levels.end()));
 
             grid->updated_active_tensors = MultiIndexSet(is, iomode());
 
